@@ -619,6 +619,36 @@ class XformWorld:
                 continue
             st.buf = "unknown"
 
+    def refreshed_unknown(self, x):
+        """x re-predicted / re-read its parameters (a successful call or update()): what other objects buffered from x's
+        *previous* prediction is outdated -- the objects linked (transitively) to a member of x, the composites that hold
+        one of those or a member of x, and every generic transform with predicted parameters of the component (its
+        update() writes its members' parameters).  Shallow copies with their own predictor state are not touched by x's
+        update: each registers its own new 'p'."""
+        mine = {id(e.obj) for e in self.elems(x)}
+        hit = set(mine)
+        grew = True
+        while grew:
+            grew = False
+            for st in self.st.values():
+                o = st.obj
+                if st.comp != x.comp or isinstance(o, CompositeTransform) or id(o) in hit:
+                    continue
+                if kind_of(o) == "L" and id(getattr(o, "params", None)) in hit:
+                    hit.add(id(o))
+                    grew = True
+        for st in list(self.st.values()):
+            if st.comp != x.comp:
+                continue
+            if isinstance(st.obj, CompositeTransform):
+                if st.obj is not x.obj and generic_pred(st.obj):
+                    st.buf = "unknown"
+                continue
+            if id(st.obj) in hit and id(st.obj) not in mine:
+                st.buf = "unknown"
+        # composites over affected members (other than x itself) have nothing of their own cached except generic predictions,
+        # handled above; their members' states carry the information
+
     def buf_valid(self, x) -> bool:
         def rec(t) -> bool:
             if isinstance(t, CompositeTransform):
@@ -1134,6 +1164,19 @@ class _Ops:
 
             self.c["probes"]["call_under_no_grad"] += 1
             self.nograd_used = True
+        # a linked transform "will not recompute shared parameters (e.g. obtained by a callable neural network), but
+        # directly access the parameters" of the transform it is linked to: evaluating it must not invoke the predictor
+        link_net = None
+        if not x.is_comp and kind_of(x.obj) == "L":
+            cur, seen = x.obj.params, {id(x.obj)}
+            while isinstance(getattr(cur, "params", None), SpatialTransform) and id(cur) not in seen:
+                seen.add(id(cur))
+                cur = cur.params
+            pn = getattr(cur, "params", None)
+            pn = getattr(pn, "net", pn)
+            if hasattr(pn, "calls") and not isinstance(cur, CompositeTransform):
+                link_net = pn
+        calls_before = link_net.calls if link_net is not None else 0
         k = op.get("interrupt")
         if k is not None:
             with Interrupt(int(k)) as mode:
@@ -1142,6 +1185,13 @@ class _Ops:
                 self.c["faults"]["interrupt"] += 1
         else:
             st, y = self.guarded(real, expect=(Exception,) if none else self.may_be_singular(x))
+        if link_net is not None:
+            self.c["checks"]["linked_call_leaves_predictor_alone"] += 1
+            if link_net.calls != calls_before:
+                v1 = self.viol("C07", "link-recomputes-parameters", x, "call", {"predictor_invocations": link_net.calls - calls_before, "outcome": st})
+                v2 = self.viol("C09", "link-recomputes-parameters", x, "call", {"predictor_invocations": link_net.calls - calls_before, "outcome": st})
+                self.set_buf(x, "unknown")
+                return StepResult("ok", "call-link-recomputed", [v1, v2])
         if st == "faulted":
             if "callable" in str(y):
                 self.c["faults"]["callable_raises"] += 1
@@ -1161,8 +1211,10 @@ class _Ops:
         # a successful call recomputes every buffer of x (and of its members)
         self.set_buf(x, "fresh")
         self.pred_replaces(x)
-        if any(kind_of(e.obj) in ("C", "L") for e in self.elems(x)) or isinstance(x.obj, GenericSpatialTransform):
+        if isinstance(x.obj, GenericSpatialTransform) or any(generic_pred(c_) for c_ in self.composites_below(x.obj)):
             self.related_unknown(x)
+        elif any(kind_of(e.obj) in ("C", "L") for e in self.elems(x)):
+            self.refreshed_unknown(x)
         out = StepResult("ok", digest_bytes(tdig(y)))
         if tw is None:
             if terr[0] == "twin-failed" and not getattr(x, "foreign_reshape", False):
@@ -1375,8 +1427,10 @@ class _Ops:
         self.pred_replaces(x)
         if not none:
             self.set_buf(x, "fresh")
-            if any(kind_of(e.obj) in ("C", "L") for e in self.elems(x)) or isinstance(x.obj, GenericSpatialTransform):
+            if isinstance(x.obj, GenericSpatialTransform) or any(generic_pred(c_) for c_ in self.composites_below(x.obj)):
                 self.related_unknown(x)
+            elif any(kind_of(e.obj) in ("C", "L") for e in self.elems(x)):
+                self.refreshed_unknown(x)
         else:
             self.set_buf(x, "unknown")
         return StepResult("ok", "update")
@@ -2390,6 +2444,19 @@ class _Ops:
             return StepResult("skipped")
         N = max(self.batch_of(T.obj), 1)
         x0 = self.pts(op["pseed"], N)
+        if op.get("near_edge"):
+            # points inside the domain but within the outermost half sample (where a grid without align_corners has no
+            # sample centre beyond and displacements are extrapolated)
+            x0 = gen.points(op["pseed"], 24, self.D, 0.97, batch=N)
+            sizes = [int(n_) for n_ in T.obj.grid().size()]
+            pick = gen.rand(op["pseed"] + 7, (N, 24), 0.0, 1.0)
+            sign = torch.where(gen.rand(op["pseed"] + 11, (N, 24), 0.0, 1.0) < 0.5, -1.0, 1.0)
+            frac = gen.rand(op["pseed"] + 13, (N, 24), 0.35, 1.0)
+            for j in range(24):
+                for b in range(N):
+                    ax = int(float(pick[b, j]) * self.D) % self.D
+                    x0[b, j, ax] = float(sign[b, j]) * (1.0 - float(frac[b, j]) / sizes[ax])  # inside the outermost half sample
+            self.c["probes"]["rt_points_near_domain_edge"] += 1
         desc = f"roundtrip(link={p.link})"
         vel_T = [e for e in self.elems(T) if cname(e.obj) in VELOCITY]
         lin_only = not vel_T and all(family(e.obj) == "lin" for e in self.elems(T))
@@ -2493,7 +2560,7 @@ class _Ops:
                 for c in range(self.D):
                     a = max(a, float(vs[:, c].max()) * cube_scale(gs[c], e.obj.grid().align_corners()))
             nmin = 16 if self.D == 2 else 12
-            inside = max(float(y.abs().max()), float(y2.abs().max())) < 0.95
+            inside = max(float(y.abs().max()), float(y2.abs().max())) < (0.999 if op.get("near_edge") else 0.95)
             if a > 0.3 or min(size) < nmin or not inside:
                 self.c["probes"]["rt_skipped_regime"] += 1
                 return out
@@ -2504,6 +2571,8 @@ class _Ops:
             self.c["probes"]["rt_velocity_checked"] += 1
             out.note = f"a={a:.4f} e={max(e1, e2):.5f}"
             self.ratio_max = max(getattr(self, "ratio_max", 0.0), max(e1, e2) / max(a * a, 1e-4))
+            q = max(0.0, max(e1, e2) - 1e-3) / max(a * a, 1e-6)
+            self.c["probes"]["rt_excess_over_a2:" + next(lbl for lim, lbl in ((0.05, "<=0.05"), (0.1, "<=0.1"), (0.25, "<=0.25"), (0.5, "<=0.5"), (1.0, "<=1"), (2.0, "<=2"), (float("inf"), ">2")) if q <= lim)] += 1
         self.c["checks"]["roundtrip"] += 1
         if p.changed_since:
             self.c["checks"]["roundtrip_after_change"] += 1
@@ -2576,6 +2645,10 @@ class _Gen:
             else:
                 d["gen"] = rng.weighted([("smooth", 4), ("affine", 4), ("randn", 2)])
             d["amp"] = rng.round(0.03, 0.12 if small else 0.25, 3)
+            if self.sc["profile"] == "C07" and rng.chance(0.4):
+                # small amplitudes: an error that is first order in the amplitude (boundary handling, a wrong sign of a
+                # small term) exceeds the second-order bound only here
+                d["amp"] = rng.round(0.015, 0.06, 3)
             d["scale"] = 1.0
         return d
 
@@ -2741,7 +2814,7 @@ class _Gen:
             op["grid"] = True
         elif how in ("image", "pointset"):
             op["via"] = how
-        if rng.chance(0.15):
+        if rng.chance(self.sc.get("nograd_rate", 0.15)):
             op["nograd"] = True
         return op
 
@@ -2943,6 +3016,8 @@ class _Gen:
         op = {"op": "roundtrip", "pair": i, "pseed": rng.subseed()}
         if rng.chance(0.4 if self.pairs[i].changed_since else 0.15):
             op["inv_first"] = True
+        if rng.chance(0.3):
+            op["near_edge"] = True
         return op
 
     def gen_arm(self, rng):
@@ -3073,6 +3148,8 @@ class XformEngine:
         return {
             "profile": profile, "tier": tier, "D": D, "grid": grid, "families": fams, "kinds": kinds, "faults": faults,
             "weights": weights, "length": rng.randint(10, hi), "max_roots": rng.choice([1, 2, 2, 3]), "max_handles": rng.choice([4, 6, 8]),
+            # inference-style runs evaluate (almost) everything under torch.no_grad()
+            "nograd_rate": rng.choice([0.1, 0.1, 0.1, 0.85]),
         }
 
     def new_world(self, scenario) -> World:
@@ -3096,7 +3173,7 @@ class XformEngine:
             o = dict(op)
             o.pop("via")
             out.append(o)
-        for key in ("nograd", "arm", "inv_first", "thru"):
+        for key in ("nograd", "arm", "inv_first", "thru", "near_edge"):
             if op.get(key):
                 o = dict(op)
                 o.pop(key)
